@@ -578,3 +578,13 @@ Proof.
             forallb (client_h s) cs && nodup_nat cs); [|discriminate].
   destruct (step c good (i_al s) (AAlloc t)) as [[al' [| |[id|] pa| | |]]|] eqn:Hal; try discriminate. eauto.
 Qed.
+
+(** [cstep] spelled out *)
+Lemma cstep_def cap s o r s' : cstep cap s o r s' <->
+  ((exists r0, r = Some r0 /\ (forall h p, o = AAdd h p -> ~ afull cap s) /\ rstep s o r0 s') \/
+   (exists h p, o = AAdd h p /\ r = None /\ s' = s /\ afull cap s /\ afind h (a_hs s) = None)).
+Proof.
+  split.
+  - intros H. inversion H; subst; [left; eauto | right; eauto 10].
+  - intros [(r0 & -> & Hf & Hst)|(h & p & -> & -> & -> & Hf & Hh)]; [apply cs_ok; auto | apply cs_full; auto].
+Qed.
